@@ -19,6 +19,8 @@ const NKEYS: usize = 4;
 #[derive(Clone, Debug)]
 pub enum Act {
     Put { k: usize, v: usize },
+    /// RecordStore::remove of a held key with nothing of it in flight (as the driver does for a failed write or a clean-up)
+    Remove { k: usize },
     /// responsible range set strictly between the distances of rank `below` and `below+1` (0 = nearer than every key)
     SetRange { gap: usize },
     Payment,
@@ -145,7 +147,8 @@ impl Sys {
             fails.push(Fail::new("metrics-payments", "in-memory", format!("quoting metrics report {} payments, {} were received", qm.received_payment_count, self.payments)));
         }
         // the store's idea of its farthest record is the farthest of what it holds
-        let far = self.rig().view().farthest;
+        // (asked through the store's own get_farthest(), which is what the driver reports to the replication fetcher)
+        let far = self.rig().store.get_farthest();
         let want_far = held.iter().max().map(|k| self.uni.keys[*k].clone());
         if far != want_far && self.unacked.iter().all(|u| *u == 0) {
             fails.push(Fail::new(
@@ -216,6 +219,17 @@ impl Sys {
                             }
                         }
                     }
+                }
+            }
+            Act::Remove { k } => {
+                let before = self.held();
+                let key = self.uni.keys[*k].clone();
+                self.rigm().remove(&key);
+                let after = self.held();
+                let mut want = before.clone();
+                want.remove(k);
+                if after != want {
+                    fails.push(Fail::new("removal-exact", self.trigger(), format!("removing k{k} changed the held set {before:?} -> {after:?}")));
                 }
             }
             Act::SetRange { gap } => {
@@ -298,6 +312,11 @@ impl System for Sys {
                 v.push(Act::Put { k, v: 0 });
             }
             v.push(Act::Put { k: 0, v: 1 });
+            if self.unacked.iter().all(|u| *u == 0) && self.rig().pending_tasks().iter().all(|(t, _)| t == "metrics") {
+                for k in self.held() {
+                    v.push(Act::Remove { k });
+                }
+            }
             for gap in [1, 2, 3] {
                 v.push(Act::SetRange { gap });
             }
@@ -474,7 +493,7 @@ pub fn main(tier: Option<&str>) {
     let run = Run::new("C10", "model_checking", tier);
     run.rule(
         "BFS, replay mode, on a real NodeRecordStore with capacity 2 and 3 over 4 keys ranked by the independent XOR metric: \
-         Put(k) (notification delivered later, so bursts of unacknowledged writes exist), SetRange(strictly between ranks), Payment, \
+         Put(k) (notification delivered later, so bursts of unacknowledged writes exist), Remove(held k, nothing of it in flight), SetRange(strictly between ranks), Payment, \
          Cleanup, Restart, and every order of the store's background tasks incl. metrics flushes; at most 3(4) API operations per history \
          from empty and pre-filled stores, scheduler steps unbounded. Second part: stores loaded with 1637/1638/1639 settled records x \
          5 ranges (+ no range) checked for exact clean-up and exact close-record count.",
@@ -486,7 +505,7 @@ pub fn main(tier: Option<&str>) {
     let uni = std::sync::Arc::new(universe("c10", NKEYS));
     let _ = &uni.dist;
     let api = run.pick(3, 4);
-    for (cap, prefill, label) in [(2usize, vec![], "cap2"), (2, vec![0usize], "cap2-prefilled(k0)"), (2, vec![1, 3], "cap2-prefilled(k1,k3)"), (3, vec![0, 1, 3], "cap3-prefilled(k0,k1,k3)")] {
+    for (cap, prefill, label) in [(2usize, vec![], "cap2"), (2, vec![0usize], "cap2-prefilled(k0)"), (2, vec![1, 3], "cap2-prefilled(k1,k3)"), (2, vec![2, 3], "cap2-prefilled(k2,k3)"), (3, vec![0, 1, 3], "cap3-prefilled(k0,k1,k3)")] {
         let u = uni.clone();
         bfs_replay(
             &run,
